@@ -22,6 +22,7 @@ import (
 	"strings"
 
 	"github.com/hashicorp/consul/agent/netutil"
+	"github.com/hashicorp/consul/agent/structs"
 	"github.com/hashicorp/consul/internal/verifharness/hx"
 	"github.com/hashicorp/consul/internal/verifharness/storex"
 )
@@ -241,6 +242,57 @@ func randomHistories(run *hx.Run, n, maxOps int) {
 	}
 }
 
+// exhaustive runs EVERY word of `depth` letters over a small alphabet (2 nodes, one typical / connect-native
+// instance, two sidecars of one destination, a service check, a config entry, a rename by node ID), each on a
+// fresh store with virtual IPs enabled: validation of the tie on a complete small scope, not the claim itself.
+func exhaustive(run *hx.Run, depth int) {
+	chk := storex.ChkArg{Node: "n1", ID: "c1", Status: "passing", SvcID: "web1"}
+	alphabet := []func() *Op{
+		func() *Op { return opReg("", "n1", idN1, typical("web1", "web", false), chk) },
+		func() *Op { return opReg("", "n1", idN1, sidecar("web-sidecar-proxy", "web", "db")) },
+		func() *Op { return opReg("", "n2", idN2, sidecar("web-sidecar-proxy", "web", "db")) },
+		func() *Op { return opReg("", "n1", idN1, typical("web1", "web", true)) },
+		func() *Op { return opDereg("", "n1", "web1", "") },
+		func() *Op { return opDereg("", "n1", "web-sidecar-proxy", "") },
+		func() *Op { return opDereg("", "n1", "", "") },
+		func() *Op { return opReg("", "n3", idN1, nil) }, // rename n1 -> n3 by node ID
+		func() *Op { return opCfg(structs.ServiceDefaults, "web", "tcp") },
+		func() *Op { return opCfgDel(structs.ServiceDefaults, "web") },
+	}
+	word := make([]int, depth)
+	count := 0
+	for {
+		h := NewHistory(run)
+		idx := uint64(10)
+		pre := opVips()
+		pre.Idx = idx
+		h.Step(pre)
+		for k, l := range word {
+			op := alphabet[l]()
+			idx += 2
+			op.Idx = idx
+			op.ViaFSM = (count+k)%2 == 0
+			h.Step(op)
+		}
+		h.Finish()
+		count++
+		i := depth - 1
+		for i >= 0 {
+			word[i]++
+			if word[i] < len(alphabet) {
+				break
+			}
+			word[i] = 0
+			i--
+		}
+		if i < 0 {
+			break
+		}
+	}
+	run.Extra[fmt.Sprintf("exhaustive_depth_%d", depth)] = map[string]any{"alphabet": len(alphabet), "histories": count, "exhaustive": true}
+	run.Tag(fmt.Sprintf("exhaustive:depth-%d", depth))
+}
+
 func main() {
 	run := hx.Start()
 	if p := os.Getenv("C07_DEBUG_WITNESSES"); p != "" {
@@ -251,6 +303,7 @@ func main() {
 	netutil.SetAgentBindAddr(&net.IPAddr{IP: net.ParseIP("10.0.0.1")})
 	run.Rule = "every result line and every full dump (nodes, services with kind/connect/proxy/virtual-IP attributes, checks, coordinates, sessions, kind-service-names, service-virtual-ips, free-virtual-ips, usage, config entries, system metadata, local index rows) of the real state store after every command equals the Lean model's; the catalog invariant, the deregistration cascades and every derived view (usage, kind-service-names, virtual IPs, gateway-services, mesh-topology) recomputed from the registrations and config entries hold on the implementation"
 	runCorpus(run)
-	randomHistories(run, run.Scale(300, 4000), 30)
+	randomHistories(run, run.Scale(600, 8000), 30)
+	exhaustive(run, run.Scale(3, 4))
 	run.Finish()
 }
